@@ -20,7 +20,7 @@ MODELLED = ["accumulators are modelled as non-negative integers (weights in the 
 ASSUMPTIONS = ["weights/sample_weight omitted in the injected runs so that the statistics are integers; a case whose added statistic is not integer-valued (a sum of sample values rather than a count/weight) is skipped and counted as skipped:non-integer-statistic"]
 TRUSTED_EXTRA = ["harness/translators/dtypes.py (reads dtypes off live objects) producing lean/TE/Gen/Dtypes.lean"]
 
-MAGS = [2 ** 24 - 2, 2 ** 24 - 1, 2 ** 24, 2 ** 24 + 2, 2 ** 31, 2 ** 52]
+MAGS = [2 ** 24 - 2, 2 ** 24 - 1, 2 ** 24, 2 ** 24 + 1, 2 ** 24 + 2, 2 ** 31, 2 ** 31 + 1, 2 ** 52, 2 ** 52 + 1]   # incl. values float32 cannot hold (2^24+1, 2^31+1)
 
 
 def translate(rep: Report):
@@ -132,6 +132,40 @@ def one(rep: Report, rng: Rng, spec: Spec, cfg0: dict, st: str, mag: int):
                        "got": got.reshape(-1).tolist(), "want": want.reshape(-1).tolist()})
 
 
+def big_weight_cases(rep: Report, rng: Rng):
+    """weights given as large integers (bucket counts used as weights): the weight totals must grow by exactly their
+    sum, whatever the dtype of the weight tensor (int64 / int32 / float64) and of the scores (float32 / float64)."""
+    import torcheval.metrics as M
+    plans = [("Mean", lambda: M.Mean(), "weights", lambda m, x, w: m.update(x, weight=w)),
+             ("ClickThroughRate", lambda: M.ClickThroughRate(), "weight_total", lambda m, x, w: m.update((x > 0).long(), w)),
+             ("BinaryNormalizedEntropy", lambda: M.BinaryNormalizedEntropy(), "num_examples",
+              lambda m, x, w: m.update(x.clamp(0.125, 0.875), (x > 0.5).to(x.dtype), weight=w.to(x.dtype)))]
+    for name, ctor, st, upd in plans:
+        for wdt in (torch.int64, torch.int32, torch.float64):
+            for xdt in (torch.float32, torch.float64):
+                if name == "BinaryNormalizedEntropy" and not (wdt == torch.float64 and xdt == torch.float64):
+                    continue        # its weights must have the dtype of the scores; float32 weights cannot hold the values at all
+                base = rng.choice([9_000_000, 2 ** 23 + 1, 12_345_679])
+                ws = [base, base + 1, base + rng.choice([2, 4])]
+                x = torch.tensor([0.25, 0.5, 0.75], dtype=xdt)
+                w = torch.tensor(ws, dtype=wdt)
+                m = ctor()
+                try:
+                    upd(m, x, w)
+                    upd(m, x, w)
+                except Exception as e:  # noqa: BLE001
+                    rep.count(f"big-weights:raises:{name}:{type(e).__name__}")
+                    continue
+                got = getattr(m, st).to(torch.float64).reshape(-1)[0].item()
+                want = float(2 * sum(ws))
+                rep.case(nontrivial_key=("big-weights", name, str(wdt), str(xdt), tuple(ws)), sample=None)
+                rep.count("big-weights:cases")
+                if got != want:
+                    rep.violation(f"C19|{name}|{st}|integer-weights-rounded",
+                                  f"{name}.{st} after two updates with weights {ws} ({str(wdt).replace('torch.', '')}, scores {str(xdt).replace('torch.', '')}) is {got:.1f} instead of {want:.1f}",
+                                  {"kind": "big-weights", "class": name, "state": st, "weights": ws, "weight_dtype": str(wdt), "score_dtype": str(xdt), "got": got, "want": want})
+
+
 def sweep(rep, rng, reps, deadline):
     for spec in SPECS:
         if not spec.count_states:
@@ -146,6 +180,7 @@ def sweep(rep, rng, reps, deadline):
 
 
 def run(rep: Report):
+    big_weight_cases(rep, Rng(rep.seed * 1000003 + 1919))
     sweep(rep, Rng(rep.seed * 1000003 + 19), 1 if rep.tier == "quick" else 8, time.time() + budget(rep.tier, 40, 400))
 
 
@@ -157,6 +192,18 @@ def replay(payload) -> bool:
     """True iff the property holds on the recorded case (class, state, injected magnitude, warm-up batch, batches): the
     accumulator after the batches equals injected + their statistics, judged by `measure` (the sweep's oracle)."""
     rp = payload.get("replay") or {}
+    if rp.get("kind") == "big-weights":
+        r2 = Report("C19", "quick", 0)
+        import torcheval.metrics as M
+        # re-run exactly this plan entry
+        plans = {"Mean": (lambda: M.Mean(), lambda m, x, w: m.update(x, weight=w)),
+                 "ClickThroughRate": (lambda: M.ClickThroughRate(), lambda m, x, w: m.update((x > 0).long(), w)),
+                 "BinaryNormalizedEntropy": (lambda: M.BinaryNormalizedEntropy(), lambda m, x, w: m.update(x.clamp(0.125, 0.875), (x > 0.5).to(x.dtype), weight=w.to(x.dtype)))}
+        ctor, upd = plans[rp["class"]]
+        wdt = getattr(torch, rp["weight_dtype"].replace("torch.", "")); xdt = getattr(torch, rp["score_dtype"].replace("torch.", ""))
+        x = torch.tensor([0.25, 0.5, 0.75], dtype=xdt); w = torch.tensor(rp["weights"], dtype=wdt)
+        m = ctor(); upd(m, x, w); upd(m, x, w)
+        return getattr(m, rp["state"]).to(torch.float64).reshape(-1)[0].item() == float(2 * sum(rp["weights"]))
     if payload.get("kind", "failing-input") != "failing-input" or not {"class", "state", "injected", "batches"} <= set(rp):
         raise ValueError(f"nothing to replay: payload kind {payload.get('kind')!r} carries no case (class, state, injected, batches)")
     from ..registry import BY_NAME, Batch
